@@ -430,6 +430,55 @@ func c05Run(c *core.Ctx) {
 			}
 		}
 	}
+	// nested messages: every variable-length element of every message filled with a complete instance of every message
+	// type (a decoder that unpacks a container must still populate exactly the body the outer type names)
+	for mi := range spec.Messages {
+		m := &spec.Messages[mi]
+		if m.Family != "gmm" && m.Family != "gsm" {
+			continue
+		}
+		u++
+		if !c.Mine(u) {
+			continue
+		}
+		if !c.Begin("nested", "decode", map[string]string{"msg": m.Name}) {
+			continue
+		}
+		base := renderMandatory(m, -1, tok{})
+		for i := range m.Slots {
+			sl := &m.Slots[i]
+			if sl.LenSize == 0 || sl.Half || sl.Max < 8 || len(sl.Alts) > 0 {
+				continue
+			}
+			for mj := range spec.Messages {
+				inner := &spec.Messages[mj]
+				if inner.Family != "gmm" && inner.Family != "gsm" {
+					continue
+				}
+				ib := renderMandatory(inner, -1, tok{})
+				for _, t := range optTokens(inner, false) {
+					if t.Slot >= 0 && mj%2 == 0 {
+						ib = append(ib, renderTok(inner, t)...)
+					}
+				}
+				if len(ib) > sl.Max {
+					ib = ib[:sl.Max]
+				}
+				for len(ib) < sl.Min {
+					ib = append(ib, 0)
+				}
+				t := tok{Slot: i, L: len(ib), Raw: string(ib)}
+				var full []byte
+				if sl.Optional {
+					full = append(append([]byte{}, base...), renderTok(m, t)...)
+				} else {
+					full = renderMandatory(m, i, t)
+				}
+				dec("plain", full)
+				dec(m.Family, full)
+			}
+		}
+	}
 	// pre-set security-header view: 8^3 value combinations of the three one-octet fields (MAC field follows the first)
 	// x inputs of both families (valid bodies of three types each, a wrong first octet, a GSM header read as GMM) x
 	// the three entry points
@@ -490,7 +539,7 @@ func init() {
 		ID: "C05", Level: "model_checking", Run: c05Run,
 		Shards: func(string) int { return 16 },
 		Rule: func(string) string {
-			return "all 256 x 256 (first octet, message type) pairs at both header offsets ([o,00,t] and [o,00,00,t]), each followed by the minimal valid body of the message the pair names (also one octet short and with one trailing unknown octet) and by {nothing, one, sixteen} zero octets, through PlainNasDecode and the family decoder; all inputs of length 0..1, nil; reuse of one message for every ordered pair of assigned types of a family through PlainNasDecode and through the family decoder, with a valid and with a truncated (rejected) first input; decode into a message whose security-header view was set beforehand (8 x 8 x 8 values of the one-octet fields x 15 inputs x 3 entry points: verdict and populated bodies must equal those of a fresh message); encode for all 256 types x {5GMM, 5GSM} x {family encoder, PlainNasEncode} x {no body, another body, own body}. Oracle: the pinned message-type table (accept iff discriminator and type are assigned and the body is valid; exactly one family and exactly the named body populated; header view = input header = body header octets; errors otherwise)."
+			return "all 256 x 256 (first octet, message type) pairs at both header offsets ([o,00,t] and [o,00,00,t]), each followed by the minimal valid body of the message the pair names (also one octet short and with one trailing unknown octet) and by {nothing, one, sixteen} zero octets, through PlainNasDecode and the family decoder; all inputs of length 0..1, nil; reuse of one message for every ordered pair of assigned types of a family through PlainNasDecode and through the family decoder, with a valid and with a truncated (rejected) first input; every variable-length element of every message filled with a complete instance of every message type (nested messages: still exactly the body named by the outer type); decode into a message whose security-header view was set beforehand (8 x 8 x 8 values of the one-octet fields x 15 inputs x 3 entry points: verdict and populated bodies must equal those of a fresh message); encode for all 256 types x {5GMM, 5GSM} x {family encoder, PlainNasEncode} x {no body, another body, own body}. Oracle: the pinned message-type table (accept iff discriminator and type are assigned and the body is valid; exactly one family and exactly the named body populated; header view = input header = body header octets; errors otherwise)."
 		},
 		Assumptions: []string{
 			"'a message with no body' is read as 'neither GmmMessage nor GsmMessage'; a family header with an assigned type but a nil body of that type is not asserted (the statement is ambiguous there)",
